@@ -13,7 +13,11 @@ Code-shaped models of the byte parsers and `open` functions that take attacker b
 * `crypto_sign_open` → `crypto_sign_ed25519_open` (/repo/src/classic/crypto_sign.rs, crypto_sign_ed25519.rs),
 * the tail of `Pwhash::parse_encoded_pwhash` and `crypto_pwhash_str_needs_rehash` (the `unwrap()`s),
 * `crypto_onetimeauth_verify` (/repo/src/classic/crypto_onetimeauth.rs),
-* the serde visitors of /repo/src/bytes_serde.rs (`arr[idx] = elem`, `idx += 1`, `resize`).
+* the serde visitors of /repo/src/bytes_serde.rs (`arr[idx] = elem`, `idx += 1`, `resize`),
+* the CLASSIC box-family opens `crypto_secretbox_open_easy`, `…_open_easy_inplace`, `crypto_box_open_easy`,
+  `…_open_easy_inplace`, `crypto_box_seal_open` with everything they call (`crypto_secretbox_open_detached`,
+  `crypto_secretbox_open_verify`, `crypto_secretbox_open_detached_inplace`, the `crypto_box_open_detached*`
+  wrappers) — /repo/src/classic/crypto_secretbox.rs, crypto_secretbox_impl.rs, crypto_box.rs.
 
 Statements in source order; `split_at`, `unwrap`, `copy_from_slice`, `a - b` are the checked operations
 of `Model.Raw`.  Each function takes a flag `guard`: `true` is the source as it is, `false` is the source
@@ -45,6 +49,140 @@ def fromSealedBytesRawWith (guard : Bool) (bs : Bytes) : Outcome Box := do
 
 def fromSealedBytesRaw (bs : Bytes) : Outcome Box := fromSealedBytesRawWith true bs
 def fromSealedBytesNoGuard (bs : Bytes) : Outcome Box := fromSealedBytesRawWith false bs
+
+/-! ### the classic opens, statement by statement
+
+`Model.SecretBox.openEasy` etc. place their `panic` branches by hand; here every operation of the Rust that
+can panic is a checked operation of `Model.Raw`, and `Proofs/BoxOpenRawExtra.lean` proves the two agree.
+
+XSalsa20 (crate `salsa20` 0.10.2 on `cipher` 0.4.4): `remaining_blocks() = u64::MAX - block_pos`; the two
+`apply_keystream` calls go through `check_remaining` like those of ChaCha20 and are modelled with
+`checkRemaining` (they cannot fail for a slice, whose length is below 2^64; that is a proof, not an omission). -/
+
+/-- `u64::MAX` -/
+def U64_MAX : Nat := 2 ^ 64 - 1
+
+/-- body → `Opened`: on `Err` and on panic the buffer is reported as the caller's -/
+def wrapOpened (buf : Bytes) : Outcome Bytes → Opened
+  | .ok b => ⟨.ok (), b⟩
+  | .err => ⟨.err, buf⟩
+  | .panic => ⟨.panic, buf⟩
+
+/-- `crypto_secretbox_open_verify(ciphertext, mac, nonce, key) -> Result<XSalsa20, Error>`:
+`XSalsa20::new`, `cipher.apply_keystream(&mut mac_key)` (32 zero bytes, fresh cipher), Poly1305 over the
+ciphertext, constant-time comparison.  The returned cipher (core at block 1, 32 bytes of that block used) is
+represented by the key stream from byte 32 on. -/
+def openVerifyRaw (P : Prims) (c mac nonce key : Bytes) : Outcome Bytes := do
+  checkRemaining (U64_MAX - 0) 0 32
+  let ks := P.stream key nonce (32 + c.length)
+  let macKey := ks.take 32
+  let computed := P.mac macKey c
+  errIf (mac ≠ computed)
+  pure (ks.drop 32)
+
+/-- `crypto_secretbox_open_detached_inplace(data, mac, nonce, key)`:
+`let mut cipher = crypto_secretbox_open_verify(data, mac, nonce, key)?; cipher.apply_keystream(data)` -/
+def openDetachedInplaceRawBody (P : Prims) (data mac nonce key : Bytes) : Outcome Bytes := do
+  let ks ← openVerifyRaw P data mac nonce key
+  checkRemaining (U64_MAX - 1) 32 data.length
+  pure (xorBytes data ks)
+
+def openDetachedInplaceRaw (P : Prims) (data mac nonce key : Bytes) : Opened :=
+  wrapOpened data (openDetachedInplaceRawBody P data mac nonce key)
+
+/-- `crypto_secretbox_open_detached(message, mac, ciphertext, nonce, key)`:
+`let message = &mut message[..ciphertext.len()]; let mut cipher = crypto_secretbox_open_verify(..)?;
+message.copy_from_slice(ciphertext); cipher.apply_keystream(message)`; the result is the caller's whole
+buffer afterwards -/
+def openDetachedRawBody (P : Prims) (m mac c nonce key : Bytes) : Outcome Bytes := do
+  let dst ← sliceTo m c.length
+  let ks ← openVerifyRaw P c mac nonce key
+  let dst ← copyFromSlice dst c
+  checkRemaining (U64_MAX - 1) 32 dst.length
+  pure (xorBytes dst ks ++ m.drop c.length)
+
+def openDetachedRaw (P : Prims) (m mac c nonce key : Bytes) : Opened :=
+  wrapOpened m (openDetachedRawBody P m mac c nonce key)
+
+/-- `crypto_secretbox_open_easy(message, ciphertext, nonce, key)`: guard, `ciphertext.split_at(MACBYTES)`,
+`ByteArray::as_array(mac)` (an `assert!`), `crypto_secretbox_open_detached`.  `guard = false`: the source with
+the `ciphertext.len() < MACBYTES` check deleted. -/
+def openEasyRawBody (guard : Bool) (P : Prims) (m ct nonce key : Bytes) : Outcome Bytes := do
+  errIfWhen guard (ct.length < MACBYTES)
+  let mc ← splitAt ct MACBYTES          -- `(mac, ciphertext)`
+  let mac ← asArray MACBYTES mc.1
+  openDetachedRawBody P m mac mc.2 nonce key
+
+def openEasyRaw (P : Prims) (m ct nonce key : Bytes) : Opened := wrapOpened m (openEasyRawBody true P m ct nonce key)
+def openEasyNoGuard (P : Prims) (m ct nonce key : Bytes) : Opened := wrapOpened m (openEasyRawBody false P m ct nonce key)
+
+/-- `crypto_secretbox_open_easy_inplace(ciphertext, nonce, key)`: guard, `split_at_mut(MACBYTES)`, `as_array`,
+`crypto_secretbox_open_detached_inplace(data, mac, nonce, key)?` (writes `data` only on success),
+`ciphertext.rotate_left(MACBYTES)` -/
+def openEasyInplaceRawBody (guard : Bool) (P : Prims) (ct nonce key : Bytes) : Outcome Bytes := do
+  errIfWhen guard (ct.length < MACBYTES)
+  let md ← splitAt ct MACBYTES          -- `(mac, data)`
+  let mac ← asArray MACBYTES md.1
+  let data ← openDetachedInplaceRawBody P md.2 mac nonce key
+  rotateLeftChecked (md.1 ++ data) MACBYTES
+
+def openEasyInplaceRaw (P : Prims) (ct nonce key : Bytes) : Opened :=
+  wrapOpened ct (openEasyInplaceRawBody true P ct nonce key)
+def openEasyInplaceNoGuard (P : Prims) (ct nonce key : Bytes) : Opened :=
+  wrapOpened ct (openEasyInplaceRawBody false P ct nonce key)
+
+/-- `crypto_box_open_detached(message, mac, ciphertext, nonce, pk, sk)`: `crypto_box_beforenm`,
+`crypto_box_open_detached_afternm(..)?` (= `crypto_secretbox_open_detached`), `key.zeroize()` -/
+def boxOpenDetachedRawBody (P : Prims) (m mac c nonce pk sk : Bytes) : Outcome Bytes := do
+  let key := beforenm P pk sk
+  openDetachedRawBody P m mac c nonce key
+
+/-- `crypto_box_open_detached_inplace(data, mac, nonce, pk, sk)` -/
+def boxOpenDetachedInplaceRawBody (P : Prims) (data mac nonce pk sk : Bytes) : Outcome Bytes := do
+  let key := beforenm P pk sk
+  openDetachedInplaceRawBody P data mac nonce key
+
+/-- `crypto_box_open_easy(message, ciphertext, nonce, sender_pk, recipient_sk)` -/
+def boxOpenEasyRawBody (guard : Bool) (P : Prims) (m ct nonce pk sk : Bytes) : Outcome Bytes := do
+  errIfWhen guard (ct.length < MACBYTES)
+  let mc ← splitAt ct MACBYTES
+  let mac ← asArray MACBYTES mc.1
+  boxOpenDetachedRawBody P m mac mc.2 nonce pk sk
+
+def boxOpenEasyRaw (P : Prims) (m ct nonce pk sk : Bytes) : Opened :=
+  wrapOpened m (boxOpenEasyRawBody true P m ct nonce pk sk)
+def boxOpenEasyNoGuard (P : Prims) (m ct nonce pk sk : Bytes) : Opened :=
+  wrapOpened m (boxOpenEasyRawBody false P m ct nonce pk sk)
+
+/-- `crypto_box_open_easy_inplace(data, nonce, sender_pk, recipient_sk)` -/
+def boxOpenEasyInplaceRawBody (guard : Bool) (P : Prims) (ct nonce pk sk : Bytes) : Outcome Bytes := do
+  errIfWhen guard (ct.length < MACBYTES)
+  let md ← splitAt ct MACBYTES
+  let mac ← asArray MACBYTES md.1
+  let data ← boxOpenDetachedInplaceRawBody P md.2 mac nonce pk sk
+  rotateLeftChecked (md.1 ++ data) MACBYTES
+
+def boxOpenEasyInplaceRaw (P : Prims) (ct nonce pk sk : Bytes) : Opened :=
+  wrapOpened ct (boxOpenEasyInplaceRawBody true P ct nonce pk sk)
+def boxOpenEasyInplaceNoGuard (P : Prims) (ct nonce pk sk : Bytes) : Opened :=
+  wrapOpened ct (boxOpenEasyInplaceRawBody false P ct nonce pk sk)
+
+/-- `crypto_box_seal_open(message, ciphertext, recipient_pk, recipient_sk)`: the two length checks (the second
+evaluates `ciphertext.len() - SEALBYTES`), `epk.copy_from_slice(&ciphertext[..PUBLICKEYBYTES])`,
+`crypto_box_seal_nonce`, `crypto_box_open_easy(message, &ciphertext[PUBLICKEYBYTES..], &nonce, &epk, sk)`.
+`guard = false`: the source with the `ciphertext.len() < SEALBYTES` check deleted. -/
+def sealOpenRawBody (guard : Bool) (P : Prims) (m ct rpk rsk : Bytes) : Outcome Bytes := do
+  errIfWhen guard (ct.length < SEALBYTES)
+  let n ← checkedSub ct.length SEALBYTES
+  errIf (m.length ≠ n)
+  let src ← sliceTo ct 32
+  let epk ← copyFromSlice (zeros 32) src
+  let nonce := sealNonce P epk rpk
+  let rest ← sliceFrom ct 32
+  boxOpenEasyRawBody true P m rest nonce epk rsk
+
+def sealOpenRaw (P : Prims) (m ct rpk rsk : Bytes) : Opened := wrapOpened m (sealOpenRawBody true P m ct rpk rsk)
+def sealOpenNoGuard (P : Prims) (m ct rpk rsk : Bytes) : Opened := wrapOpened m (sealOpenRawBody false P m ct rpk rsk)
 
 end DryocVerif.Model.SecretBox
 
